@@ -1013,7 +1013,7 @@ func runSlowReader(f *Fixture, spec *PipeSpec, want int) *PipeResult {
 	case <-time.After(20 * time.Second):
 		res.Clients[0].WriteErr = fmt.Errorf("client write did not finish within 20s")
 	}
-	c.WaitReplies(want, 10*time.Second)
+	c.WaitRepliesProgress(want, 10*time.Second, 300*time.Second)
 	return res.collect(f, []*rclient.Client{c})
 }
 
